@@ -83,6 +83,45 @@ Proof. rewrite <- Z.land_assoc. reflexivity. Qed.
 Lemma land_feature_ref x : Z.land (Z.land x c_featureMask) c_refMask = Z.land x c_refMask.
 Proof. rewrite <- Z.land_assoc. reflexivity. Qed.
 
+(* the type field as a number: x & typeMask = m * 2^56 with m = (x / 2^56) mod 128 in [0, 128).
+   A Type() function is a function of m only, so however it decodes the kind (switch on the
+   masks, table lookup on the shifted code, ...) its equation with the spec is a FINITE check
+   over the 128 values of m. *)
+Definition typebits (x : Z) : Z := (x / 2 ^ 56) mod 128.
+
+Lemma typebits_range x : 0 <= typebits x < 128.
+Proof. unfold typebits. apply Z.mod_pos_bound. reflexivity. Qed.
+
+Lemma land_typeMask_form x : Z.land x c_typeMask = typebits x * 2 ^ 56.
+Proof.
+  unfold typebits. change c_typeMask with (Z.ones 7 * 2 ^ 56). change 128 with (2 ^ 7).
+  apply Z.bits_inj'. intros i Hi. rewrite Z.land_spec.
+  destruct (Z.lt_ge_cases i 56) as [Hlt|Hge].
+  - rewrite !Z.mul_pow2_bits_low by lia. apply andb_false_r.
+  - rewrite !Z.mul_pow2_bits by lia.
+    destruct (Z.lt_ge_cases (i - 56) 7) as [Hl|Hg].
+    + rewrite Z.ones_spec_low by lia. rewrite Z.mod_pow2_bits_low by lia.
+      rewrite Z.div_pow2_bits by lia. rewrite andb_true_r. f_equal. lia.
+    + rewrite Z.ones_spec_high by lia. rewrite Z.mod_pow2_bits_high by lia.
+      apply andb_false_r.
+Qed.
+
+Lemma fin128 (f g : Z -> string) :
+  forallb (fun n => String.eqb (f (Z.of_nat n)) (g (Z.of_nat n))) (seq 0 128) = true ->
+  forall m, 0 <= m < 128 -> f m = g m.
+Proof.
+  intros H m Hm. rewrite forallb_forall in H.
+  specialize (H (Z.to_nat m)). rewrite Z2Nat.id in H by lia.
+  apply String.eqb_eq. apply H. apply in_seq. lia.
+Qed.
+
+Ltac kind_finite x :=
+  rewrite ?(land_typeMask_form x);
+  generalize (typebits_range x); generalize (typebits x);
+  match goal with
+  | |- forall m, 0 <= m < 128 -> @?f m = @?g m => apply (fin128 f g); vm_compute; reflexivity
+  end.
+
 Ltac bits_ac :=
   apply Z.bits_inj'; let n := fresh "n" in let Hn := fresh "Hn" in intros n Hn;
   rewrite ?Z.lor_spec, ?Z.land_spec, ?Z.lxor_spec; btauto.
@@ -97,7 +136,8 @@ Ltac gen_sem :=
   first [ reflexivity
         | solve [split_tests; reflexivity]
         | solve [bits_ac]
-        | solve [f_equal; bits_ac] ].
+        | solve [f_equal; bits_ac]
+        | solve [match goal with |- context [Z.land ?x c_typeMask] => kind_finite x end] ].
 
 (* ---------- constructors ---------- *)
 
